@@ -148,5 +148,64 @@ func runC11Cross(r *Report, rng *rand.Rand, thorough bool) {
 			r.Violate("cross_enum_constant_names_collide_after_single_sweep", fmt.Sprintf("constants declared twice: %v (enums %v, other types %v)", dups, enums, others), replay)
 		}
 	}
+	// enums over DIFFERENT base types whose values are spelled alike (1 and "1", true and "true", int32 and int64): the
+	// constant names clash although the values cannot; all names must still be distinct and every value keep its constant
+	mixed := []map[string]any{
+		{"Priority": map[string]any{"type": "integer", "enum": []any{1, 2, 3}}, "ApiVersion": map[string]any{"type": "string", "enum": []any{"1", "2"}}},
+		{"Enabled": map[string]any{"type": "boolean", "enum": []any{true, false}}, "Answer": map[string]any{"type": "string", "enum": []any{"true", "false", "unknown"}}},
+		{"Small": map[string]any{"type": "integer", "format": "int32", "enum": []any{1, 2}}, "Big": map[string]any{"type": "integer", "format": "int64", "enum": []any{1, 2}}},
+		{"Ratio": map[string]any{"type": "number", "enum": []any{1, 2.5}}, "Count": map[string]any{"type": "integer", "enum": []any{1, 7}}},
+	}
+	for mi, comps := range mixed {
+		spec, _ := json.Marshal(map[string]any{"openapi": "3.0.3", "info": map[string]any{"title": "e", "version": "1"}, "paths": map[string]any{}, "components": map[string]any{"schemas": comps}})
+		cfg := codegen.Configuration{PackageName: "gen", Generate: codegen.GenerateOptions{Models: true}}
+		cfg.OutputOptions.SkipPrune = true
+		replay := map[string]any{"spec": json.RawMessage(spec)}
+		r.Count(fmt.Sprintf("mixed-base-types/%d", mi), true)
+		r.Dist["family=cross-enum-mixed-base-types"]++
+		code, err := generate(spec, cfg)
+		if err != nil {
+			r.Violate("generate_fails_on_enum/mixed-base-types", trunc(err.Error(), 300), replay)
+			continue
+		}
+		p, err := parseGo(code)
+		if err != nil {
+			r.Violate("output_unparsable", err.Error(), replay)
+			continue
+		}
+		count := map[string]int{}
+		perType := map[string]int{}
+		for _, dd := range p.file.Decls {
+			gd, ok := dd.(*ast.GenDecl)
+			if !ok || gd.Tok != token.CONST {
+				continue
+			}
+			for _, sp := range gd.Specs {
+				vs := sp.(*ast.ValueSpec)
+				id, _ := vs.Type.(*ast.Ident)
+				for _, nm := range vs.Names {
+					count[nm.Name]++
+					if id != nil {
+						perType[id.Name]++
+					}
+				}
+			}
+		}
+		var problems []string
+		for nm, c := range count {
+			if c > 1 {
+				problems = append(problems, fmt.Sprintf("constant %s declared %d times", nm, c))
+			}
+		}
+		for tn, sc := range comps {
+			if want := len(sc.(map[string]any)["enum"].([]any)); perType[tn] != want {
+				problems = append(problems, fmt.Sprintf("enum %s has %d constants for %d values", tn, perType[tn], want))
+			}
+		}
+		if len(problems) > 0 {
+			sort.Strings(problems)
+			r.Violate("enums_of_different_base_types_clash", strings.Join(problems, "; "), replay)
+		}
+	}
 	cases.WriteTo(r)
 }
